@@ -270,6 +270,7 @@ def r3_isolation(ctx, chk, rec_t, rule="C12.3"):
     else:
         chk.violation(rule, f.where(), "the solver mutates its input (%s) and run_games hands it the caller's game without a deep copy: the unpruned run starts from the pruned run's damaged lists" % tmp_viol[0][1][:140],
                       expected="input-pure solver or deep copy per run", found="neither", construct="run_games isolation")
+    _shared_mutables(ctx, chk, rule, f)
     if not s.ok or rec_t is None:
         return
     # (b) no value recorded in an entry comes from an earlier iteration
@@ -289,7 +290,10 @@ def r3_isolation(ctx, chk, rec_t, rule="C12.3"):
                       expected="defaults None/0 set inside the mode loop", found=show(bad[0]), construct="run_games loop-carried record value %s" % bad[0][2])
     else:
         chk.ok(rule, f.where(Li.node), "no recorded value has a reaching definition from an earlier game or mode (only the result dict and the had-solution flag are carried)")
-    # (c) no shared mutable object updated in place by run_games
+
+
+def _shared_mutables(ctx, chk, rule, f):
+    """(c) no shared mutable object updated in place by run_games, and none put into the results as it is"""
     mod = f.mod
     mod_names = set(mod.consts)
     hits = []
@@ -324,6 +328,29 @@ def r3_isolation(ctx, chk, rec_t, rule="C12.3"):
                       expected="per-iteration objects only", found=norm_stmt(cfg.stmt_of(n)), construct="run_games shared mutable %s" % what.split("`")[1])
     else:
         chk.ok(rule, f.where(), "run_games updates no module-level object (or alias of one) in place")
+    # a module-level container handed out as (part of) a result: every entry that gets it is the same object
+    mutable = {n_ for n_, v_ in mod.consts.items() if isinstance(v_, (ast.Dict, ast.List, ast.Set)) or (isinstance(v_, ast.Call) and call_name(v_) in ("dict", "list", "set", "defaultdict", "collections.defaultdict"))}
+    for n in walk_no_nested_defs(f.node):
+        val = None
+        if isinstance(n, ast.Assign) and len(n.targets) == 1 and isinstance(n.targets[0], ast.Subscript):
+            val = n.value
+        elif isinstance(n, ast.Call) and isinstance(n.func, ast.Attribute) and n.func.attr in ("append", "add", "setdefault") and n.args:
+            val = n.args[-1]
+        if not isinstance(val, ast.Name):
+            continue
+        srcs = set()
+        if val.id in mutable and val.id not in local_names:
+            srcs.add(val.id)
+        elif val.id in local_names:
+            for d in cfg.defs_reaching(n, val.id):
+                if isinstance(d, ast.Assign) and isinstance(d.value, ast.Name) and d.value.id in mutable and d.value.id not in local_names:
+                    srcs.add(d.value.id)
+        if srcs:
+            g_ = sorted(srcs)[0]
+            chk.violation(rule, f.where(n), "`%s` stores the module-level object `%s` itself (no copy): every entry that receives it is one and the same object, so what is written into one "
+                          "entry shows in all of them, in this batch and the next" % (norm_stmt(cfg.stmt_of(n))[:80], g_), expected="a fresh object per entry (dict(%s) / a display)" % g_,
+                          found=norm_stmt(cfg.stmt_of(n))[:100], construct="run_games shares module-level %s" % g_)
+            return
 
 
 def _flag_var(s):
@@ -420,6 +447,12 @@ def _msg_term(s):
 
 def _solve_calls(t):
     return [x for x in C02._sub(t) if x[0] == "mcall" and x[2] in _SOLVE_NAMES[0]]
+
+
+def r1b_module_iterators(ctx, chk, rule="C12.1"):
+    n = shared.rule_no_module_level_iterators(ctx, chk, rule, ("conditionalrewards.py", "tad.py"))
+    if not any(o.rule == rule and o.status == "violation" and "one-shot iterator" in str(o.detail) for o in chk.obls):
+        chk.ok(rule, "conditionalrewards.py, tad.py", "%d module-level bindings: none is a lazy iterator that a loop of the batch walks" % n)
 
 
 def r4_failure_protocol(ctx, chk, rule="C12.4"):
@@ -649,6 +682,7 @@ def r5_record(ctx, chk, rec_t, rule="C12.5"):
 
 
 def run(ctx, chk):
+    r1b_module_iterators(ctx, chk)
     rec = r1_keys(ctx, chk)
     r2_mode_reaches_solver(ctx, chk)
     r3_isolation(ctx, chk, rec)
